@@ -105,7 +105,12 @@ Long == /\ l <= Len(Trace) /\ Ev.op = "Long"
         /\ IF Ev.ok THEN Ev.n > 0 /\ Ev.n <= Ev.len ELSE Ev.n = 0
         /\ l' = l + 1 /\ UNCHANGED <<wire, pend>>
 
-Next == Reset \/ Write \/ Read \/ Marshal \/ Decode \/ Big \/ Long
+\* n distinct short values decoded one after the other: every one came back as itself
+Bulk == /\ l <= Len(Trace) /\ Ev.op = "Bulk"
+        /\ ~Ev.panic /\ Ev.bad = 0
+        /\ l' = l + 1 /\ UNCHANGED <<wire, pend>>
+
+Next == Reset \/ Write \/ Read \/ Marshal \/ Decode \/ Big \/ Long \/ Bulk
 Spec == Init /\ [][Next]_<<wire, pend, l>>
 Accepted == AcceptByDiameter
 =============================================================================
